@@ -443,10 +443,7 @@ func asciiCase(up bool) func(in any, _ []any) mres {
 		if !ok {
 			return fail()
 		}
-		if !utf8.ValidString(s) {
-			return open("invalid UTF-8")
-		}
-		b := []byte(s)
+		b := []byte(s) // only A-Z / a-z change, every other byte is kept (C03.F1)
 		for i, c := range b {
 			if up && 'a' <= c && c <= 'z' {
 				b[i] = c - 32
